@@ -3,6 +3,7 @@ package kit
 import (
 	"fmt"
 	"math/big"
+	"math/bits"
 	"strings"
 
 	"pgregory.net/rapid"
@@ -14,13 +15,33 @@ import (
 
 // All randomness comes from rapid. No wall clock, no map iteration.
 
-func pick[T any](t *rapid.T, label string, xs []T) T {
-	return xs[rapid.IntRange(0, len(xs)-1).Draw(t, label)]
+// rapid's integer generators are deliberately biased towards small values, which would turn a
+// nominal "10 %" into something much larger; choices are therefore drawn from uniform bits
+// (rapid.Bool is uniform). All-false shrinks to index 0 / "no", so lists put the plainest value
+// first.
+func uniform(t *rapid.T, label string, n int) int {
+	if n <= 1 {
+		return 0
+	}
+	k := bits.Len(uint(n-1)) + 4
+	v := 0
+	for i, b := range rapid.SliceOfN(rapid.Bool(), k, k).Draw(t, label) {
+		if b {
+			v |= 1 << i
+		}
+	}
+	return v % n
 }
 
-func chance(t *rapid.T, label string, percent int) bool {
-	return rapid.IntRange(0, 99).Draw(t, label) < percent
+func Pick[T any](t *rapid.T, label string, xs []T) T { return xs[uniform(t, label, len(xs))] }
+
+func Chance(t *rapid.T, label string, percent int) bool {
+	return uniform(t, label, 1000) >= 1000-10*percent
 }
+
+func pick[T any](t *rapid.T, label string, xs []T) T { return Pick(t, label, xs) }
+
+func chance(t *rapid.T, label string, percent int) bool { return Chance(t, label, percent) }
 
 func Fill32(b byte) []byte {
 	out := make([]byte, 32)
@@ -115,7 +136,7 @@ func Amount(t *rapid.T, label string, denom string) (*big.Int, string) {
 	case "burn-limit":
 		return new(big.Int).Add(burnLimit, big.NewInt(int64(rapid.IntRange(-3, 3).Draw(t, label)))), class
 	case "pow2":
-		e := rapid.IntRange(60, 256).Draw(t, label+"/exp")
+		e := 60 + uniform(t, label+"/exp", 197)
 		v := new(big.Int).Lsh(big.NewInt(1), uint(e))
 		v.Add(v, big.NewInt(int64(rapid.IntRange(-2, 2).Draw(t, label+"/off"))))
 		if v.Cmp(world.MaxUint256) > 0 {
@@ -134,7 +155,7 @@ func Amount(t *rapid.T, label string, denom string) (*big.Int, string) {
 // entries, bps in 1..10000, positive fixed amounts, valid recipients, total strictly below A.
 // recipients are drawn from classes.
 func ValidFees(t *rapid.T, label string, A *big.Int, classes []string) []Fee {
-	n := rapid.IntRange(0, MaxFeeEntries).Draw(t, label+"/n")
+	n := uniform(t, label+"/n", MaxFeeEntries+1)
 	var fees []Fee
 	remaining := new(big.Int).Sub(A, big.NewInt(1)) // total must stay <= A-1
 	for i := 0; i < n; i++ {
@@ -302,7 +323,7 @@ func GenTransfer(t *rapid.T, w *world.World, opt TransferOpt) Transfer {
 		denoms = AllDenoms
 	}
 	denom := pick(t, "denom", denoms)
-	ch := rapid.IntRange(0, world.NumChannels-1).Draw(t, "channel")
+	ch := uniform(t, "channel", world.NumChannels)
 	if denom == world.Uhuge {
 		ch = 0 // the only escrow that holds it
 	}
